@@ -80,7 +80,7 @@ def main():
     # ---- Trace_Notch (a recorded walk of the real extended Neuber law)
     from .drivers import c06
     tw, _ = c06._walk(('EN', c06.MATERIALS[0], 2.0, c06.TOLS[1], [0.2, 0.5, 0.9]))
-    tw = {k: tw[k] for k in ('law', 'lgKp', 'tau', 'steps')}
+    tw = {k: tw[k] for k in ('law', 'lgKp', 'tau', 'spur', 'bresP', 'bresS', 'steps')}
     def mod4(f):
         t = copy.deepcopy(tw); f(t); return t
     U = 1048576
@@ -93,7 +93,9 @@ def main():
              ('strain not on the RO curve', mod4(lambda t: t['steps'][1].__setitem__('lgEps', t['steps'][1]['lgEpsRO'] + 9)), 'strain_is_not_the_Ramberg_Osgood_strain_of_the_stress'),
              ('backward function off', mod4(lambda t: t['steps'][2].__setitem__('lgLb', t['steps'][2]['lgL'] + 40)), 'load_of_stress_is_not_the_load'),
              ('Series input answers differently', mod4(lambda t: t['steps'][0]['forms'].__setitem__(-1, t['steps'][0]['lgS'] + 40)), 'scalar_array_and_Series_inputs_differ'),
-             ('second step repeats the first stress', mod4(lambda t: t['steps'][1].update({k: t['steps'][0][k] for k in ('lgS', 'lgSneg', 'lgD', 'forms', 'lgEps', 'lgEpsRO', 'lgDEps', 'lgDEpsRO')} | {'lgLb': 0, 'lgLbs': 0})),
+             ('an element of the long vector is no root', mod4(lambda t: t.__setitem__('bresS', 2500)), 'long_vector_stress_range_is_not_a_root'),
+             ('long range vector answers differently', mod4(lambda t: t['steps'][2]['formsD'].__setitem__(0, t['steps'][2]['lgD'] - 40)), 'secondary_branch_container_forms_differ'),
+             ('second step repeats the first stress', mod4(lambda t: t['steps'][1].update({k: t['steps'][0][k] for k in ('lgS', 'lgSneg', 'lgD', 'forms', 'formsD', 'lgEps', 'lgEpsRO', 'lgDEps', 'lgDEpsRO')} | {'lgLb': 0, 'lgLbs': 0})),
               ('stress_not_strictly_increasing_in_the_load', 'stress_below_load_over_Kp'))]
     bad += _expect('Trace_Notch', c06.TRACE_TLA, c06.TRACE_CFG, cases)
     print('selftest:', 'all trace specifications reject what they must' if bad == 0 else '%d FAILURES' % bad)
